@@ -91,6 +91,10 @@ def build_cases(tier, seed):
                 kenc = rng.pick(["f64", "i64"])
                 k = adapt(rng, keys, kenc, ["pachunk"])
                 cases.append(mk(k, kenc, ["pachunk", list(comp)], rng.randrange(2), 10 ** 6, "gb", rng.pick(["ikey", "groups"])))
+                # arrow dictionary-typed chunks, each with its own dictionary
+                kenc = rng.pick(["str", "i64"])
+                k = adapt(rng, keys, kenc, ["pachunkdict"])
+                cases.append(mk(k, kenc, ["pachunkdict", list(comp)], rng.randrange(2), 10 ** 6, rng.pick(["gb", "gb", "f1d"]), rng.pick(["ikey", "groups"])))
     # RangeIndex keys
     for n in range(0, 6):
         for step in (1, 2, 3, -1, -2):     # (a negative step: the index of a reversed Series)
